@@ -1,18 +1,20 @@
 SPECIFICATION Spec
 CONSTANTS
-  Part = "list"
+  Part = "shared"
   MaxAlts = 1
   MaxSamples = 1
   MaxCalls = 1
   Correlated = FALSE
   AnsOpts = {}
   CmpReturns = {}
-  LeafAns = {"a0", "a1f"}
-  LeafCmp = {"T", "P"}
-  TableGrades = {"c12"}
+  LeafAns = {"a12", "a1"}
+  LeafCmp = {"T", "F"}
+  TableGrades = {}
   ListAns = {}
   MaxItems = 1
-  Layouts = {"flat2", "g121"}
+  Layouts = {"flat2"}
   TableOnly = {"g1212"}
-  OkRecomputed = FALSE
+  AttOpts = {"none", "c12", "c1e4"}
+  OkRecomputed = TRUE
+  ParentForcesChildDebug = FALSE
 PROPERTY Terminates
